@@ -242,7 +242,8 @@ def _hint(annotation):
     return Obj("Annotated", f"Annotated[{annotation!r}]", (), {"__metadata__": (annotation,), "_name": "Annotated"})
 
 
-def _type_hints(ctx, P):
+def run_hints(P, hints):
+    """Evaluate _parse_signature_from_type_hints on modelled hints (objects carrying exactly the attributes they have)."""
     fi = P.func("grid_ufunc:_parse_signature_from_type_hints")
 
     def hasattr_hook(ev, f, args, kw, node):
@@ -257,9 +258,15 @@ def _type_hints(ctx, P):
             return args[0].attrs.get(args[1], args[2])  # the modelled hints carry exactly the attributes they have
         return NotImplemented
 
+    ev = Evaluator(P, models=re_models(), method_models=match_method_models(), call_hook=hasattr_hook)
+    return ev.run_paths(fi, lambda: dict(hints=dict(hints)))
+
+
+def _type_hints(ctx, P):
+    fi = P.func("grid_ufunc:_parse_signature_from_type_hints")
+
     def run(hints):
-        ev = Evaluator(P, models=re_models(), method_models=match_method_models(), call_hook=hasattr_hook)
-        return ev.run_paths(fi, lambda: dict(hints=dict(hints)))
+        return run_hints(P, hints)
 
     plain = Obj("type", "np.ndarray", (), {"_name": "ndarray"})
     cases = [
@@ -272,6 +279,11 @@ def _type_hints(ctx, P):
         ({"a": _hint(""), "b": _hint("X:center"), "return": _hint("X:center")}, "(),(X:center)->(X:center)"),
         ({"a": _hint("X:center"), "return": _hint("")}, "(X:center)->()"),
         ({"a": _hint("X:center"), "return": Obj("Tuple", "Tuple[...]", (), {"_name": "Tuple", "__args__": (_hint("X:left"), _hint(""))})}, "(X:center)->(X:left),()"),
+        # what the python arguments are called is immaterial: names that are fragments of the word `return`, and an opaque name
+        ({"u": _hint("X:center"), "t": _hint("X:left"), "return": _hint("X:center")}, "(X:center),(X:left)->(X:center)"),
+        ({"turn": _hint("X:center"), "re": _hint("Y:left"), "n": _hint("X:left"), "return": _hint("X:center")}, "(X:center),(Y:left),(X:left)->(X:center)"),
+        ({"returns": _hint("X:center"), "return_": _hint("X:left"), "return": _hint("X:center")}, "(X:center),(X:left)->(X:center)"),
+        ({Sym("argname0"): _hint("X:center"), Sym("argname1"): _hint("X:left"), "return": _hint("X:outer")}, "(X:center),(X:left)->(X:outer)"),
     ]
     for hints, text in cases:
         inst = f"hints for {text}"
@@ -282,13 +294,15 @@ def _type_hints(ctx, P):
             continue
         ins, outs_ = parse_signature(text)
         want = ([tuple(n for n, _ in a) for a in ins], [tuple(p for _, p in a) for a in ins], [tuple(n for n, _ in a) for a in outs_], [tuple(p for _, p in a) for a in outs_])
-        if len(outs) != 1 or outs[0].kind != "return":
-            ctx.report("R15.3", fi, inst, f"well-formed annotations are refused ({outs[0].value})")
+        if len(outs) != 1:
+            ctx.report("R15.3", fi, inst, f"what the annotations denote depends on what the python arguments are called ({len(outs)} outcomes for an opaque argument name): {[o.value for o in outs][:3]!r}")
+        elif outs[0].kind != "return":
+            ctx.report("R15.3", fi, inst, f"well-formed annotations are refused ({outs[0].value}{': ' + str(getattr(outs[0].exc, 'msg', '')) if getattr(outs[0].exc, 'msg', None) else ''})")
         elif tuple([tuple(x) for x in part] for part in outs[0].value) != tuple(want):
             ctx.report("R15.3", fi, inst, f"the annotations denote {outs[0].value!r}; the equivalent string denotes {want!r}")
         else:
             ctx.ok("R15.3", inst, "same as the string form")
-    for bad_ann in ("X:centre", "Xcenter", "X:center,", "X:center Y:left", "X:center)(Y:left", ":center", "X:"):
+    for bad_ann in ("X:centre", "Xcenter", "X:center,", "X:center Y:left", "X:center)(Y:left", ":center", "X:", "X:leftmost", "X:center_point", "X:center,Y:outermost"):
         inst = f"malformed annotation {bad_ann!r}"
         try:
             outs = run({"a": _hint(bad_ann), "return": _hint("X:left")})
